@@ -155,6 +155,37 @@ def audit(pid, modules):
     return [(n, results.get(n)) for n in names], problems
 
 
+def leanchecker(modules):
+    """independent re-check of the .olean files of the given modules (thorough tier)"""
+    def one(m):
+        rc, out = sh(["lake", "env", "leanchecker", m], cwd=LEAN, timeout=1800)
+        return m, (rc, out[-300:])
+    with concurrent.futures.ThreadPoolExecutor(max_workers=4) as ex:
+        return dict(ex.map(one, modules))
+
+
+def interpreter_crosscheck(pid, per_file=40):
+    """re-judge a sample of this run's case lines with `lean --run` (interpreter) and compare with the
+    compiled driver's verdicts"""
+    wdir = os.path.join(WORK, pid)
+    lines, verdicts = [], []
+    for f in sorted(os.listdir(wdir)):
+        if not f.endswith(".cases"):
+            continue
+        with open(os.path.join(wdir, f)) as fc, open(os.path.join(wdir, f[:-6] + ".verdicts")) as fv:
+            cl, vl = fc.readlines(), fv.readlines()
+        step = max(1, len(cl) // per_file)
+        for i in range(0, min(len(cl), len(vl)), step):
+            if len(cl[i]) < 20000:
+                lines.append(cl[i])
+                verdicts.append(vl[i].rstrip("\n"))
+    p = subprocess.run(["lake", "env", "lean", "--run", "Driver/Main.lean"], cwd=LEAN, input="".join(lines),
+                       stdout=subprocess.PIPE, stderr=subprocess.PIPE, text=True, env=ENV, timeout=3000)
+    got = p.stdout.splitlines()
+    differ = sum(1 for a, b in zip(verdicts, got) if a != b) + abs(len(verdicts) - len(got))
+    return dict(lines=len(lines), differ=differ)
+
+
 # ------------------------------------------------------------------------------- rust
 
 def cargo_build(timeout=1800):
